@@ -30,7 +30,6 @@ structure Inv00 (ex : Var → Prop) (s : St) : Prop where
   ring_nodup : ∀ o, (s.ring o).Nodup
   ex_out : ∀ v, ex v → ∀ o, v ∉ s.ring o
   cur_lt : ∀ d, s.vlive (.cur d) = true → d < s.next
-  mem_par : ∀ m, s.alive m = true → s.kind m = .mem → ∃ b, s.par m = some b ∧ m ∈ s.kids b
   kids_ok : ∀ b m, m ∈ s.kids b →
     (s.alive m = true ∧ s.kind m = .mem ∧ s.par m = some b ∧ s.alive b = true
       ∧ (s.kind b = .buf ∨ s.kind b = .pool))
@@ -49,6 +48,7 @@ structure Inv0 (ex : Var → Prop) (s : St) : Prop extends Inv00 ex s where
   ch_par : ∀ c, s.alive c = true → s.kind c ≠ .dev → s.kind c ≠ .mem →
     ∃ d, s.par c = some d ∧ s.alive d = true ∧ s.kind d = .dev
       ∧ (c ∈ s.chGet (s.kind c) d ∨ (s.kind c = .buf ∧ ∃ p, s.alive p = true ∧ s.inner p = some c))
+  mem_par : ∀ m, s.alive m = true → s.kind m = .mem → ∃ b, s.par m = some b ∧ m ∈ s.kids b
 
 /-- safety part plus "nothing is alive without an owner" (no leak) -/
 structure InvX (ex : Var → Prop) (s : St) : Prop extends Inv0 ex s where
@@ -139,14 +139,6 @@ theorem Inv00.killed {ex : Var → Prop} {s s' : St} {K : List Nat} (hi : Inv00 
     rw [hk.next]
     rw [hk.vlive] at hd
     exact hi.cur_lt d hd
-  · intro m hm hkm
-    rw [hk.kind] at hkm
-    obtain ⟨hm1, hm2⟩ := (al m).mp hm
-    obtain ⟨b, hb1, hb2⟩ := hi.mem_par m hm1 hkm
-    refine ⟨b, by rw [hk.par m hm2 hm1]; exact hb1, ?_⟩
-    apply hk.kidsU b m hb2 hm1 hm2
-    intro hbK
-    exact hm2 (hc.kidsC b hbK m hb2)
   · intro b m hm
     have h1 := hk.kidsS b m hm
     have hmK : m ∉ K := hp.1 b m hm
@@ -194,7 +186,16 @@ theorem Inv00.killed {ex : Var → Prop} {s s' : St} {K : List Nat} (hi : Inv00 
 theorem Inv0.killed {ex : Var → Prop} {s s' : St} {K : List Nat} (hi : Inv0 ex s) (hk : Killed s K s')
     (hc : Closed0 s K) (hp : Purged s' K) (he : Emptied s' K) : Inv0 ex s' := by
   have al := hk.alive_iff
-  refine ⟨hi.toInv00.killed hk hc hp he, ?_⟩
+  refine ⟨hi.toInv00.killed hk hc hp he, ?_, ?_⟩
+  rotate_left
+  · intro m hm hkm
+    rw [hk.kind] at hkm
+    obtain ⟨hm1, hm2⟩ := (al m).mp hm
+    obtain ⟨b, hb1, hb2⟩ := hi.mem_par m hm1 hkm
+    refine ⟨b, by rw [hk.par m hm2 hm1]; exact hb1, ?_⟩
+    apply hk.kidsU b m hb2 hm1 hm2
+    intro hbK
+    exact hm2 (hc.kidsC b hbK m hb2)
   · intro c hca hk1 hk2
     rw [hk.kind] at hk1 hk2
     obtain ⟨hc1, hc2⟩ := (al c).mp hca
